@@ -13,6 +13,9 @@ CLAIMS = {
  "C16": dict(cat="model_checking", ref="3 (C16)", technique="TLA+ automaton of the Fortran numeric-field grammar (FortranNum.tla); TLC enumerates every character-class string and classifies recorded calls (FortranNumTrace.tla); each replayed through fortran_float/fortran_int",
    text="TLC checks grammar-level laws (blanks ignored, D means E, every Fortran output form accepted) for all class strings within the length bound and emits each string's outcome class and parse tree; every string is concretised and run through the real readers, and rendered reals / arbitrary strings recorded from the real readers are classified by TLC. Right level: the property is a finite-alphabet language property of a fallback cascade.",
    note="Expected numeric value = Python float()/int() of the canonical text built from the spec's parse tree (trusted leaf); length bound in evidence."),
+ "C02": dict(cat="model_checking", ref="3 (C02)", technique="TLA+ width-arithmetic model FixedRecord.tla over the four format tables extracted from the working tree; TLC enumerates the (record kind, field, value class) lattice with expected outcomes; every point replayed through write_values_to_string/parse_string",
+   text="TLC checks on the model that under the guarded writer no field ever occupies more than its columns (and, in a negative configuration, that unguarded '%' formatting spills), and emits for every field of every record kind every width-determining value class with its outcome FITS/TRIM/IMPOSSIBLE; each is concretised and written/parsed by the real code, checking line length, the focus field and every neighbour. Right level: the property is finite width arithmetic per field.",
+   note="Expected parse of a fitting value is Python's own '%' formatting of that value alone; other fields carry fitting values; tables are read from /repo at run time."),
 }
 REASONS_PENDING = "check not built yet in this revision (see DESIGN.md section 6 build order); the specification family applies"
 NA = {
